@@ -159,6 +159,17 @@ CHECKS = {
              "caller-owned arrays, replayed with digests of every array / operator after every call and validated by "
              "Trace_Persist.tla, plus seeded longer sequences.",
         design="5/C18", technique="TLC exploration of construction orders and operation sequences + fresh-interpreter replay + trace validation"),
+    "C19": dict(
+        text="(1) On the live rule table TLC (MC_Dispatch) decides for every call (function, structured kind, documented "
+             "algorithm class, arity incl. omitted algorithm) whose function owns a structural rule for that kind that the "
+             "selected rule is structural. (2) spec/Cost.tla is a cost semantics of the matrix-free products; TLC checks "
+             "on the cost catalog that the work stays within 'fixed multiple of the operand + dense sizes of the factors', "
+             "that this budget is at least 16x below n^2 and that the catalog is in the property's regime, and exports "
+             "the budget. (3) Real operators of those shapes (Kronecker with 2-4 factors, KronSum, BlockDiag with "
+             "multiplicities, sums / products with diagonal, scalar, identity; n = 4096..9216) go through matmul, inv / "
+             "solve, logdet, diag / trace, sqrt / pow / exp, cholesky, plu with and without explicit algorithm under "
+             "tracemalloc; the peak must stay within TLC's budget.",
+        design="5/C19", technique="TLC on extracted rule table + TLC cost model + measured-peak conformance"),
     "C20": dict(
         text="TLC resolves every index form (ints, slices incl. negative/strided/empty, integer arrays, lists) with the "
              "transcribed Python slice.indices / negative-wrap semantics (PyIndex.tla) on every operator tree and "
